@@ -3,7 +3,7 @@
 //! hook of every slice execution observed (ndjson for spec/Slice/SliceTrace.tla).
 //!
 //!   hv_slice replay <cases.ndjson> <trace.ndjson>     cases from TLC (SliceGen):
-//!                   {"prog":1|2|3,"stages":[[[port,v],..],..]}   port: 0 = a, 1 = b, 2 = c
+//!                   {"prog":1|2|3|0,"stages":[[[port,v],..],..]}   port: 0 = a, 1 = b, 2 = c
 //!   hv_slice random <count> <maxops> <trace.ndjson>
 use hv_common::{Rng, Trace, Value, json};
 use hv_std::slice_flows::sim::{P1, P2, P3, build};
@@ -21,7 +21,7 @@ struct Stats {
     panics: usize,
 }
 
-fn run_case(sim: &CompiledSim, p1: &P1, p2: &P2, p3: &P3, c: &Case, next_id: &mut u64, t: &mut Trace, st: &mut Stats) {
+fn run_case(sim: &CompiledSim, p1: &P1, p2: &P2, p3: &P3, p0: &P1, c: &Case, next_id: &mut u64, t: &mut Trace, st: &mut Stats) {
     let mut runs: Vec<Vec<Value>> = vec![];
     let r = hv_common::catch(|| {
         sim.exhaustive(async || {
@@ -31,6 +31,7 @@ fn run_case(sim: &CompiledSim, p1: &P1, p2: &P2, p3: &P3, c: &Case, next_id: &mu
                     evs.push(json!({"e":"in","port":port,"v":v}));
                     match (c.prog, port) {
                         (1, _) => p1.input.send(v),
+                        (0, _) => p0.input.send(v),
                         (3, _) => p3.input.send(v),
                         (_, 0) => p2.a.send(v),
                         (_, 1) => p2.b.send(v),
@@ -39,8 +40,9 @@ fn run_case(sim: &CompiledSim, p1: &P1, p2: &P2, p3: &P3, c: &Case, next_id: &mu
                 }
                 hydro_lang::sim::quiesce().await;
                 match c.prog {
-                    1 => {
-                        while let Some((batch, before, after)) = p1.out.try_next().await {
+                    0 | 1 => {
+                        let out = if c.prog == 1 { &p1.out } else { &p0.out };
+                        while let Some((batch, before, after)) = out.try_next().await {
                             evs.push(json!({"e":"rec1","batch":batch,"before":before,"after":after}));
                         }
                     }
@@ -126,7 +128,7 @@ fn main() {
     let args: Vec<String> = std::env::args().collect();
     let mode = args.get(1).map(|s| s.as_str()).unwrap_or("");
     let mut flow = FlowBuilder::new();
-    let (p1, p2, p3) = build(&mut flow);
+    let (p1, p2, p3, p0) = build(&mut flow);
     let sim = flow.sim().compiled();
     let mut st = Stats { cases: 0, schedules: 0, panics: 0 };
     let mut next_id = 0u64;
@@ -135,7 +137,7 @@ fn main() {
             let cases = hv_common::read_ndjson(&args[2]);
             let mut t = Trace::create(&args[3]);
             for v in &cases {
-                run_case(&sim, &p1, &p2, &p3, &parse_case(v), &mut next_id, &mut t, &mut st);
+                run_case(&sim, &p1, &p2, &p3, &p0, &parse_case(v), &mut next_id, &mut t, &mut st);
             }
             t.ev(json!({"e":"eof"}));
             t.finish();
@@ -147,7 +149,7 @@ fn main() {
             let mut rng = Rng::new(hv_common::seed() ^ 0xC31);
             for _ in 0..count {
                 let c = random_case(&mut rng, maxops);
-                run_case(&sim, &p1, &p2, &p3, &c, &mut next_id, &mut t, &mut st);
+                run_case(&sim, &p1, &p2, &p3, &p0, &c, &mut next_id, &mut t, &mut st);
             }
             t.ev(json!({"e":"eof"}));
             t.finish();
